@@ -1,6 +1,15 @@
 package vm
 
-import "regexp"
+import (
+	"regexp"
+	"time"
+
+	"github.com/google/mtail/internal/metrics/datum"
+)
+
+func init() { datum.VerifNow = verifNow }
+
+func vmNow() time.Time { return verifNow() }
 
 var verifMatches = map[*regexp.Regexp][]string{}
 var verifMatchSet = map[*regexp.Regexp]bool{}
